@@ -17,8 +17,7 @@ func blockingDelivery(c *Ctx, rule string, fn *ssa.Function, what string) {
 	p := c.P
 	_ = p
 	n, bad := 0, 0
-	fns := append([]*ssa.Function{fn}, Anons(fn)...)
-	for _, f := range fns {
+	for _, f := range p.FuncsWithGo(fn, 3) {
 		eachInstr(f, func(in ssa.Instruction) {
 			switch x := in.(type) {
 			case *ssa.Send:
@@ -165,7 +164,7 @@ func cacheOptionAlwaysSets(c *Ctx, rule string) {
 	p := c.P
 	opt := p.MustFunc("gossip", "SetCache")
 	n := 0
-	for _, cl := range Anons(opt) {
+	for _, cl := range returnedFuncs(p, opt) {
 		cl := cl
 		isStore := func(in ssa.Instruction) bool {
 			st, ok := in.(*ssa.Store)
@@ -268,4 +267,61 @@ func isLoadOfParam(v ssa.Value, fn *ssa.Function, idx int) bool {
 	}
 	pa, ok := u.X.(*ssa.Parameter)
 	return ok && pa.Parent() == fn && paramIndex(pa) == idx
+}
+
+// returnedFuncs: the functions whose values fn returns — closures defined in it, or methods bound
+// to a value (x.m), unwrapped from their synthetic wrapper.
+func returnedFuncs(p *Program, fn *ssa.Function) []*ssa.Function {
+	var out []*ssa.Function
+	seen := map[*ssa.Function]bool{}
+	add := func(g *ssa.Function) {
+		if g == nil || seen[g] {
+			return
+		}
+		seen[g] = true
+		if g.Synthetic != "" {
+			// bound-method / thunk wrapper: the method it forwards to
+			eachInstr(g, func(in ssa.Instruction) {
+				if cc := callCommon(in); cc != nil && cc.StaticCallee() != nil && !seen[cc.StaticCallee()] {
+					seen[cc.StaticCallee()] = true
+					out = append(out, cc.StaticCallee())
+				}
+			})
+			return
+		}
+		out = append(out, g)
+	}
+	for _, b := range fn.Blocks {
+		ret, ok := b.Instrs[len(b.Instrs)-1].(*ssa.Return)
+		if !ok {
+			continue
+		}
+		for _, rv := range ret.Results {
+			var walk func(v ssa.Value, d int)
+			walk = func(v ssa.Value, d int) {
+				if d > 4 {
+					return
+				}
+				switch x := v.(type) {
+				case *ssa.MakeClosure:
+					add(x.Fn.(*ssa.Function))
+				case *ssa.Function:
+					add(x)
+				case *ssa.Phi:
+					for _, e := range x.Edges {
+						walk(e, d+1)
+					}
+				case *ssa.ChangeType:
+					walk(x.X, d+1)
+				case *ssa.MakeInterface:
+					walk(x.X, d+1)
+				}
+			}
+			walk(rv, 0)
+		}
+	}
+	if len(out) == 0 {
+		out = Anons(fn)
+	}
+	return out
 }
